@@ -26,6 +26,10 @@ pub fn install_panic_hook() {
         let quiet = QUIET.with(|q| *q.borrow());
         if !quiet {
             default(info);
+        } else if std::env::var_os("VH_PANIC_LINES").is_some() {
+            // worker processes: one line per panic, so that the parent can tell a subject panic
+            // from a harness bug if the process dies
+            eprintln!("panicked at {loc}: {}", msg.chars().take(200).collect::<String>());
         }
     }));
 }
